@@ -102,7 +102,14 @@ func GenEventLoopPlan(seed uint64) *Plan {
 		p.Ops = append(p.Ops, op)
 	}
 	if g.p(0.5) {
-		p.Ops = append(p.Ops, SmallOp{Op: "cancel"})
+		if g.p(0.5) {
+			// the context is cancelled while the consumer sits inside a handler and events are waiting behind it
+			p.Ops = append(p.Ops, SmallOp{Op: "stall"}, SmallOp{Op: "add", A: 2})
+			for i := 0; i < g.rng(2, 5); i++ {
+				p.Ops = append(p.Ops, SmallOp{Op: "add", A: g.intn(3)})
+			}
+		}
+		p.Ops = append(p.Ops, SmallOp{Op: "cancel", A: g.intn(2)})
 		for i := 0; i < g.intn(4); i++ {
 			p.Ops = append(p.Ops, SmallOp{Op: "add", A: g.intn(3)})
 		}
@@ -798,7 +805,15 @@ func (w *elWorld) runConsumer() {
 		case "cancel":
 			if !w.canceled {
 				w.logf("op%d cancel", i)
-				if w.stalledModel {
+				if w.stalledModel && op.A == 1 {
+					// cancelled first, released afterwards: the events queued behind the blocked handler are still
+					// handled, in order
+					w.canceled = true
+					w.cancel()
+					synctest.Wait()
+					w.st.Faults["cancelled-while-handler-blocked"]++
+					w.releaseConsumer()
+				} else if w.stalledModel {
 					w.releaseConsumer()
 				}
 				w.canceled = true
